@@ -1,10 +1,22 @@
 //! idmsim3 engine. See /verif/DESIGN.md section 2 and /verif/harness/AGENT_GUIDE.md.
+#[macro_use]
+extern crate kanidmd_lib;
+
+mod c31;
+mod c37;
+mod c40;
+mod c50;
+mod sim;
 
 fn main() {
     let args = kvcore::parse_args();
     match args.prop.as_str() {
+        "C31" => c31::run(args),
+        "C37" => c37::run(args),
+        "C40" => c40::run(args),
+        "C50" => c50::run(args),
         p => {
-            println!("INCONCLUSIVE property={p} reason=idmsim3 does not serve this property yet");
+            println!("INCONCLUSIVE property={p} reason=idmsim3 does not serve this property");
             std::process::exit(2);
         }
     }
